@@ -228,7 +228,7 @@ func TestC20_LargeScale(t *testing.T) {
 	rapid.Check(t, func(t *rapid.T) {
 		cl := newCase("C20")
 		cl.label("large-scale")
-		n0 := rapid.SampledFrom([]int{1000, 4095, 4096, 4097, 10000, 16383, 16384, 16385, 20000, 32768, 40000, 65537}).Draw(t, "n0")
+		n0 := rapid.SampledFrom([]int{1000, 4095, 4096, 4097, 10000, 16383, 16384, 16385, 20000, 32768, 40000, 65536, 65537, 131071, 131072, 131073, 262144}).Draw(t, "n0")
 		seed := rapid.Uint64().Draw(t, "lcgseed")
 		lcg := func() uint64 {
 			seed = seed*6364136223846793005 + 1442695040888963407
@@ -292,6 +292,17 @@ func TestC20_LargeScale(t *testing.T) {
 			s := sortedCopy(all)
 			lo, hi := s[0], s[len(s)-1]
 			m := rapid.SampledFrom([]int{1, 2, 10, 500, 5000}).Draw(t, "batch")
+			if rapid.IntRange(0, 3).Draw(t, "topow2") == 0 {
+				// a batch that brings the size to the next power of two exactly
+				p := 1
+				for p <= len(all) {
+					p *= 2
+				}
+				if p-len(all) <= 140000 {
+					m = p - len(all)
+					cl.label("size:exact-power-of-two")
+				}
+			}
 			kind := rapid.SampledFrom([]string{"below-min", "above-max", "inside", "mixed", "equal-to-min", "merge"}).Draw(t, "batchkind")
 			cl.logf("round %d: %s x%d", r, kind, m)
 			cl.label("batch:" + kind)
